@@ -109,6 +109,13 @@ func (e *specEnv) eval(x SExpr) Val {
 			bv := Var(fmt.Sprintf("%s!b%d", v.Name, uniqCounter), e.c().sortOf(t))
 			bound = append(bound, bv)
 			n.vars[v.Name] = Val{T: bv, Typ: t}
+			if _, isPtr := t.Underlying().(*types.Pointer); isPtr && k.Forall {
+				// a universally quantified pointer ranges over every address, not
+				// only the well-typed ones: the statement proved is the stronger
+				// one, and a caller can instantiate it with a pointer it merely
+				// read from the heap (whose non-negativity it may not know)
+				continue
+			}
 			guards = append(guards, e.c().wellTyped(bv, t))
 		}
 		body := n.evalBool(k.Body)
